@@ -244,6 +244,7 @@ func runCase(c Case) (res vt.Result, fail *vt.Fail) {
 	stored := map[int]bool{}
 	tags := map[string]int{}
 	retag, multiTag, removal, midReopen := false, false, false, false
+	var prevIndex []byte
 	dirty := false // AutoSaveIndex off: in-memory index may differ from disk
 
 	validate := func(when string) *vt.Fail {
@@ -433,8 +434,21 @@ func runCase(c Case) (res vt.Result, fail *vt.Fail) {
 				return res, f
 			}
 			tp := filepath.Join(root, fmt.Sprintf("l%d.tar", i))
-			if err := fsx.TarDir(dir, tp, op.Fmt, i%2 == 1); err != nil {
+			// every third archive looks like one that was updated in place (tar -r): an
+			// older index.json record precedes the current tree
+			var stale []byte
+			if i%3 == 0 {
+				stale = prevIndex
+				if stale == nil {
+					stale = []byte(`{"schemaVersion":2,"manifests":[]}`)
+				}
+				classes["tar-with-superseded-index-record"] = true
+			}
+			if err := fsx.TarDirAppended(dir, tp, op.Fmt, i%2 == 1, stale); err != nil {
 				return res, vt.Failf("harness/tar", "%v", err)
+			}
+			if b, err := os.ReadFile(filepath.Join(dir, "index.json")); err == nil {
+				prevIndex = b
 			}
 			tv, err := oci.NewFromTar(ctx, tp)
 			if err != nil {
